@@ -218,3 +218,67 @@ package vm
 //@   ensures @C16 hidx.absent: hashable(index) && !old(has(pairs(hash), hk(index))) ==> err == nil && pushed1(vm) && topNull(vm)
 //@   ensures @C16 hidx.badkey: !hashable(index) ==> err != nil && stackSame(vm)
 //@   panics never
+
+// ---- the interpreter loop ---------------------------------------------------------------------
+// Loop 1 is the dispatch loop.  In its step/exit clauses old(e) is the value of e at the start of
+// the iteration (the state in which the instruction at ip is fetched); entry(e) is the value at
+// function entry.  Inner loops: 2 = OpArray, 3 = OpHash, 4 = OpCall argument pops,
+// 5 = OpCall parameter binding, 6 = OpRange.
+
+//@ func (vm *VM) Run(obj interface{}) (result object.Object, err error)
+//@   requires vmOK(vm) && vm.context != nil && vm.environment.global != nil && scopesOK(vm.environment)
+//@   ensures run.same: vm.environment == old(vm.environment) && vm.constants === old(vm.constants) && vm.functions == old(vm.functions) && vm.context == old(vm.context)
+//@   ensures run.result: err == nil ==> validObj(result)
+//@   panics maybe
+//@ loop 1 invariant run.inv: 0 <= ip && ln == len(vm.bytecode) && vmOK(vm) && vm.context != nil && vm.environment.global != nil && vm.fields != nil
+//@ loop 1 invariant run.inv.same: vm.stack == entry(vm.stack) && vm.environment == entry(vm.environment) && vm.constants === entry(vm.constants) && vm.bytecode === entry(vm.bytecode) && vm.functions == entry(vm.functions) && vm.context == entry(vm.context)
+//@ loop 1 invariant run.inv.scopes: scopesOK(vm.environment)
+//@ loop 1 step @C02 step.nop: (op == code.OpNop || op == code.OpPlaceholder) ==> ip == old(ip) + 1 && stackSame(vm)
+//@ loop 1 step @C01 @C15 step.push: op == code.OpPush ==> ip == old(ip) + 3 && pushed1(vm) && topInt(vm, opArg) && fresh(top(vm))
+//@ loop 1 step @C02 step.jump: op == code.OpJump ==> ip == opArg && stackSame(vm)
+//@ loop 1 step @C02 @C05 step.jif: op == code.OpJumpIfFalse ==> popped1(vm) && ip == (old(truthy(T1(vm))) ? old(ip) + 3 : opArg)
+//@ loop 1 step @C01 @C05 step.true: op == code.OpTrue ==> ip == old(ip) + 1 && pushed1(vm) && topBool(vm, true)
+//@ loop 1 step @C01 @C05 step.false: op == code.OpFalse ==> ip == old(ip) + 1 && pushed1(vm) && topBool(vm, false)
+//@ loop 1 exit @C02 exit.return: op == code.OpReturn && old(depth(vm)) >= 1 ==> err == nil && result === T1(vm)
+
+//@ func (vm *VM) lookup(obj interface{}, name string) (result object.Object)
+//@   requires vmOK(vm) && vm.fields != nil
+//@   modifies vm.fields[*]
+//@   ensures @C04 @C06 lookup.local: old(scopeOf(vm.environment, trimDollar(name), len(vm.environment.local))) >= 0
+//@             ==> result === old(vm.environment.local[scopeOf(vm.environment, trimDollar(name), len(vm.environment.local))][trimDollar(name)])
+//@   ensures @C04 @C06 lookup.global: old(scopeOf(vm.environment, trimDollar(name), len(vm.environment.local))) < 0 && old(has(vm.environment.global, trimDollar(name)))
+//@             ==> result === old(vm.environment.global[trimDollar(name)])
+//@   ensures @C04 lookup.field: old(scopeOf(vm.environment, trimDollar(name), len(vm.environment.local))) < 0 && !old(has(vm.environment.global, trimDollar(name)))
+//@             ==> (has(vm.fields, trimDollar(name)) ? result === vm.fields[trimDollar(name)] : isNull(result))
+//@   ensures lookup.good: validObj(result)
+//@   panics maybe
+
+//@ func (vm *VM) inspectObject(obj interface{})
+//@   requires vm.fields != nil
+//@   modifies vm.fields[*]
+//@   panics maybe
+
+// ---- host object reflection (C04) ---------------------------------------------------------------
+// reflect is outside the module: rvKind, rvInt ... are the (trusted, uninterpreted) accessors of
+// reflect.Value that the code itself calls.
+//@ func (vm *VM) primitiveToObject(field reflect.Value) (result object.Object)
+//@   modifies nothing
+//@   ensures @C04 @C08 p2o.good: validObj(result)
+//@   ensures @C04 p2o.invalid: !rvValid(field) ==> isNull(result)
+//@   ensures @C04 p2o.int: rvValid(field) && (rvKind(field) == reflect.Int || rvKind(field) == reflect.Int64) ==> isInt(result) && ival(result) == rvInt(field)
+//@   ensures @C04 p2o.float: rvValid(field) && (rvKind(field) == reflect.Float32 || rvKind(field) == reflect.Float64) ==> isFloat(result) && fval(result) === rvFloat(field)
+//@   ensures @C04 p2o.string: rvValid(field) && rvKind(field) == reflect.String ==> isStr(result) && sval(result) == rvString(field)
+//@   ensures @C04 p2o.bool: rvValid(field) && rvKind(field) == reflect.Bool ==> isBool(result) && bval(result) == rvBool(field)
+//@   ensures @C04 p2o.map: rvValid(field) && rvKind(field) == reflect.Map ==> isHash(result)
+//@   ensures @C04 p2o.slice: rvValid(field) && rvKind(field) == reflect.Slice ==> isArray(result)
+//@   panics maybe
+
+//@ func (vm *VM) createHash(field reflect.Value) (result object.Object)
+//@   modifies nothing
+//@   ensures @C04 createhash.type: isHash(result) && ptr(result) != 0
+//@   panics maybe
+
+//@ func (vm *VM) createArrayFromSlice(field reflect.Value) (result object.Object)
+//@   modifies nothing
+//@   ensures @C04 createarray.type: isArray(result) && ptr(result) != 0
+//@   panics maybe
